@@ -469,7 +469,11 @@ mismatch between values and axes""".format(inferred, self.values.shape)
         #TODO: use the __new__ operator to bypass all checkings in __init__
         # just check consistency between axes and values shape
 
-        return cls(values, axes, **metadata)
+        # metadata are not constructor options, whatever their names
+        # (e.g. 'dims', 'labels', 'copy', 'dtype')
+        obj = cls(values, axes)
+        obj.attrs.update(metadata)
+        return obj
 
     def copy(self, shallow=False):
         """ copy of the object and update arguments
